@@ -182,3 +182,18 @@ func VerifFaceTableLen() int {
 	FaceTable.faces.Range(func(_, _ interface{}) bool { n++; return true })
 	return n
 }
+
+// VerifTakeSent removes and returns the frames the internal component has sent that are
+// still waiting in the transport's send queue (which the transport's receive loop would
+// hand to the link service). For a transport that was made but not started.
+func (t *InternalTransport) VerifTakeSent() [][]byte {
+	var out [][]byte
+	for {
+		select {
+		case f := <-t.sendQueue:
+			out = append(out, f)
+		default:
+			return out
+		}
+	}
+}
